@@ -1687,6 +1687,13 @@ func TestVerifC13E2E(t *testing.T) {
 		}
 		code := 1 + r.IntN(16)
 		msg := c13RandMessage(r)
+		if i%10 == 7 && proto_ != conformancev1.Protocol_PROTOCOL_GRPC {
+			// "arbitrary UTF-8 messages" includes long ones: where the end of the stream travels in the body
+			// (Connect, gRPC-Web) the message is stretched to 70..260 KiB (gRPC puts it into an HTTP trailer
+			// field, whose size the HTTP stack limits)
+			unit := msg + " the quick brown fox;"
+			msg = strings.Repeat(unit, 1+(70000+r.IntN(190000))/len(unit))
+		}
 		nd := r.IntN(3)
 		errDef := c13ErrDef(r, code, msg, nd)
 		hdrs := c13MetaHeaders(r, "h")
